@@ -624,7 +624,7 @@ class _Run:
                 continue
             body = bytes.fromhex(op["payload"])
             mine = [t for t in guc_tx if t["p"]["so"]["addr"]["mid"] == ego_mac and body in t["p"]["payload"]]
-            direct = [t for t in mine if t["op"] == label and t["th"] == (next((th for (s_, st_, th, k_, d_) in sc.log if k_ == "inv" and d_[0] == label), None))]
+            direct = [t for t in mine if t["op"] == label]
             d = bytes.fromhex(op["dest"]["mac"])
             if direct and len(mine) == 1:
                 continue                    # destination known: sent within the call
@@ -681,7 +681,7 @@ class _Run:
             self.probe("lock-contended", sc.lock_contended)
         self.probe("strategy:" + sc.cfg.get("strategy", "?"))
         in_sn = set()
-        for (st, frm, to, reason, where) in sc.switch_log:
+        for (st, frm, to, reason, where, _sn) in sc.switch_log:
             if reason == "preempt" and where.rsplit(":", 1)[0].endswith("get_sequence_number"):
                 in_sn.add(frm)
         if len(in_sn) >= 2 or (in_sn and sc.lock_contended):
@@ -720,7 +720,7 @@ class _Run:
         trace += lines[:300]
         return {"violations": self.violations, "probes": self.probes, "faults": {}, "sig": sig,
                 "nontrivial": sc.preemptions > 0 or sc.lock_contended > 0, "events": sc.steps, "sim_us": sc.now_us - sc.t0_us,
-                "digest": h.hexdigest(), "trace": trace, "schedule": [list(x) for x in sc.switches]}
+                "digest": h.hexdigest(), "trace": trace, "schedule": sc.schedule()}
 
 
 def execute(plan: dict) -> dict:
@@ -734,3 +734,6 @@ def execute(plan: dict) -> dict:
     run.go()
     run.judge()
     return run.result()
+
+
+SHRINKERS = [lambda plan: S.shrink_schedule(plan, execute)]
